@@ -5,3 +5,4 @@ set -e
 cd /verif/harness
 mkdir -p /verif/bin
 go build -o /verif/bin/vcheck ./cmd/vcheck
+go build -tags purego -o /verif/bin/vcheck-purego ./cmd/vcheck
